@@ -426,6 +426,10 @@ func (g *run) resolvePathCase(base, ref string) {
 // ---------------------------------------------------------------- generated streams
 
 func (g *run) generated(n int) {
+	histEvery := 3
+	if *tier == "thorough" {
+		histEvery = 6 // 10^6 (spec) / 5*10^5 (wrap) histories: keeps the thorough tier inside its time budget
+	}
 	for i := 0; i < n; i++ {
 		c := gcfg{exotic: g.r.Chance(30)}
 		base := genAbs(g.r, c, g.r.Chance(10))
@@ -446,7 +450,7 @@ func (g *run) generated(n int) {
 		if i%2 == 0 {
 			g.chain(genChain(g.r))
 		}
-		if i%3 == 1 {
+		if i%histEvery == 1 {
 			g.hist(genHist(g.r))
 		}
 	}
